@@ -11,7 +11,8 @@ Import ListNotations.
 Local Open Scope list_scope.
 
 Definition default_lits : list expr :=
-  [ELit (LNum NMI 0); ELit (LNum NInt 0); ELit (LBool false); ELit (LBool true); ELit (LStr EmptyString)].
+  [ELit (LNum NMI 0); ELit (LNum NInt 0); ELit (LBool false); ELit (LBool true); ELit (LStr EmptyString);
+   EListLit BMI []; EListLit BInt []; EListLit BBool []; EListLit BStr []].
 
 Section ListShrink.
   Context {A : Type} (sh : A -> list A).
@@ -54,6 +55,8 @@ Fixpoint sh_e (e : expr) {struct e} : list expr :=
       [e'] ++ map (fun ss' => ESeq ss' e') (delete_one ss)
       ++ map (fun ss' => ESeq ss' e') (shrink_one sh_s ss)
       ++ map (fun e'' => ESeq ss e'') (sh_e e')
+  | EMac m e' => [e'] ++ map (EMac m) (sh_e e')
+  | EListLit b es => map (EListLit b) (delete_one es) ++ map (EListLit b) (shrink_one sh_e es)
   end
 with sh_s (s : stmt) {struct s} : list stmt :=
   match s with
@@ -73,11 +76,23 @@ with sh_s (s : stmt) {struct s} : list stmt :=
       map (fun x => SFor x hi body) (sh_e lo) ++ map (fun x => SFor lo x body) (sh_e hi)
       ++ map (fun b' => SFor lo hi b') (delete_one body)
       ++ map (fun b' => SFor lo hi b') (shrink_one sh_s body)
+  | SForIn b l body =>
+      map (fun x => SForIn b x body) (sh_e l)
+      ++ map (fun b' => SForIn b l b') (delete_one body)
+      ++ map (fun b' => SForIn b l b') (shrink_one sh_s body)
   | SBreak | SIterate => []
   | SReturn e => map SReturn (sh_e e)
   | SExit c s' => [s'] ++ map (fun c' => SExit c' s') (sh_e c) ++ map (fun x => SExit c x) (sh_s s')
   | SExitV c e => map (fun c' => SExitV c' e) (sh_e c) ++ map (fun x => SExitV c x) (sh_e e)
   | SCall n args => map (SCall n) (shrink_one sh_e args)
+  | SError e => map SError (sh_e e)
+  | SNever | SThrow _ => []
+  | STry body hs =>
+      map (fun b' => STry b' hs) (delete_one body) ++ map (fun hs' => STry body hs') (delete_one hs)
+      ++ map (fun b' => STry b' hs) (shrink_one sh_s body)
+      ++ map (fun hs' => STry body hs')
+             (shrink_one (fun h : nat * list stmt =>
+                            map (fun b => (fst h, b)) (delete_one (snd h) ++ shrink_one sh_s (snd h))) hs)
   end.
 
 Definition sh_fun (fd : fundef) : list fundef :=
